@@ -7,7 +7,6 @@ import (
 	"go/types"
 	"strings"
 
-	"golang.org/x/tools/go/callgraph"
 	"golang.org/x/tools/go/ssa"
 )
 
@@ -423,49 +422,72 @@ func fieldWrites(fn *ssa.Function) []fieldWrite {
 // ---------------------------------------------------------------------------------------------
 // call graph reachability
 
-func (w *World) reachableFrom(roots ...*ssa.Function) map[*ssa.Function]bool {
-	cg := w.CG()
-	reach := map[*ssa.Function]bool{}
-	var visit func(n *callgraph.Node)
-	visit = func(n *callgraph.Node) {
-		if n == nil || reach[n.Func] {
-			return
-		}
-		reach[n.Func] = true
+// repoSuccessors: the repo functions control can pass to from fn by one call: static/dynamic callees
+// (VTA) that belong to the module; for callees outside the module (stdlib, third party) the function
+// values passed as arguments at that call site (callbacks such as sync.Once.Do, sort.Slice). Bodies of
+// non-module functions are not traversed: VTA's type-based resolution inside fmt/sync/... would connect
+// every func() literal of the program.
+func (w *World) repoSuccessors(fn *ssa.Function, withAnons bool) []*ssa.Function {
+	var out []*ssa.Function
+	n := w.CG().Nodes[fn]
+	if n != nil {
 		for _, e := range n.Out {
-			visit(e.Callee)
-		}
-	}
-	for _, r := range roots {
-		if r == nil {
-			continue
-		}
-		visit(cg.Nodes[r])
-		// closures defined in a reachable function are conservatively reachable
-	}
-	// add anonymous functions of reachable functions (they may be invoked through values VTA resolves,
-	// but we include them conservatively)
-	changed := true
-	for changed {
-		changed = false
-		for fn := range reach {
-			for _, a := range fn.AnonFuncs {
-				if !reach[a] {
-					visit(cg.Nodes[a])
-					if !reach[a] {
-						reach[a] = true
-					}
-					changed = true
+			c := e.Callee.Func
+			if w.inRepoOrMock(c) {
+				out = append(out, c)
+				continue
+			}
+			if e.Site == nil {
+				continue
+			}
+			for _, a := range e.Site.Common().Args {
+				if f := staticCalleeOfValue(a); f != nil && w.inRepoOrMock(f) {
+					out = append(out, f)
 				}
+			}
+		}
+	}
+	if withAnons {
+		out = append(out, fn.AnonFuncs...)
+	}
+	return out
+}
+
+func (w *World) inRepoOrMock(fn *ssa.Function) bool {
+	p := fnPkg(fn)
+	return p != nil && strings.HasPrefix(p.Path(), modPath)
+}
+
+func (w *World) reach(withAnons bool, roots ...*ssa.Function) map[*ssa.Function]bool {
+	reach := map[*ssa.Function]bool{}
+	var work []*ssa.Function
+	for _, r := range roots {
+		if r != nil && !reach[r] {
+			reach[r] = true
+			work = append(work, r)
+		}
+	}
+	for len(work) > 0 {
+		f := work[len(work)-1]
+		work = work[:len(work)-1]
+		for _, c := range w.repoSuccessors(f, withAnons) {
+			if !reach[c] {
+				reach[c] = true
+				work = append(work, c)
 			}
 		}
 	}
 	return reach
 }
 
+// reachableFrom: call-graph reachability inside the module; function literals created in a reachable
+// function are conservatively included (they may be invoked through values the call graph misses).
+func (w *World) reachableFrom(roots ...*ssa.Function) map[*ssa.Function]bool {
+	return w.reach(true, roots...)
+}
+
 // chainTo returns a call chain (function names) from any root to target, for diagnostics.
 func (w *World) chainTo(target *ssa.Function, roots ...*ssa.Function) string {
-	cg := w.CG()
 	prev := map[*ssa.Function]*ssa.Function{}
 	var queue []*ssa.Function
 	for _, r := range roots {
@@ -484,15 +506,7 @@ func (w *World) chainTo(target *ssa.Function, roots ...*ssa.Function) string {
 			}
 			return strings.Join(names, " -> ")
 		}
-		n := cg.Nodes[f]
-		if n == nil {
-			continue
-		}
-		var nexts []*ssa.Function
-		for _, e := range n.Out {
-			nexts = append(nexts, e.Callee.Func)
-		}
-		nexts = append(nexts, f.AnonFuncs...)
+		nexts := w.repoSuccessors(f, !w.strictChains)
 		for _, c := range nexts {
 			if _, ok := prev[c]; !ok {
 				prev[c] = f
@@ -656,4 +670,37 @@ func guardIsNil(g guard, pred func(ssa.Value) bool) bool {
 		return false
 	}
 	return (op == token.EQL && g.pol) || (op == token.NEQ && !g.pol)
+}
+
+// strictReach: functions reachable through call edges only (closures are included only if some call
+// edge targets them).
+func (w *World) strictReach(roots ...*ssa.Function) map[*ssa.Function]bool {
+	return w.reach(false, roots...)
+}
+
+// returnedValue: the value returned in result position idx; for functions with named results and
+// defers (results spilled to cells) the value last stored to the result cell in the return's block.
+func returnedValue(ret *ssa.Return, idx int) ssa.Value {
+	v := ret.Results[idx]
+	u, ok := v.(*ssa.UnOp)
+	if !ok || u.Op != token.MUL {
+		return v
+	}
+	cell, ok := u.X.(*ssa.Alloc)
+	if !ok {
+		return v
+	}
+	var last ssa.Value
+	for _, in := range ret.Block().Instrs {
+		if in == ssa.Instruction(ret) {
+			break
+		}
+		if st, ok := in.(*ssa.Store); ok && st.Addr == ssa.Value(cell) {
+			last = st.Val
+		}
+	}
+	if last != nil {
+		return last
+	}
+	return v
 }
